@@ -2,7 +2,11 @@
 
 package vlib
 
-import "github.com/lesismal/nbio"
+import (
+	"github.com/lesismal/nbio"
+	"github.com/lesismal/nbio/taskpool"
+	"github.com/lesismal/nbio/timer"
+)
 
 // YieldAvailable reports whether the build carries the schedule-perturbation instrumentation.
 const YieldAvailable = true
@@ -14,5 +18,11 @@ func Yield(perMille int, seed uint64) func() {
 		return func() {}
 	}
 	nbio.VerifSetYield(perMille, seed)
-	return func() { nbio.VerifSetYield(0, 0) }
+	timer.VerifSetYield(perMille, seed+1)
+	taskpool.VerifSetYield(perMille, seed+2)
+	return func() {
+		nbio.VerifSetYield(0, 0)
+		timer.VerifSetYield(0, 0)
+		taskpool.VerifSetYield(0, 0)
+	}
 }
